@@ -426,6 +426,9 @@ def all_vars(assertions, tn):
             walk(c)
     for a in assertions:
         walk(a)
+    unknown = [k for k in vs if k not in tn]
+    if unknown:
+        raise DumpError("unknown solver variable %s" % unknown[0])
     return [vs[k] for k in sorted(vs, key=lambda n: tn[n])]
 
 
@@ -652,10 +655,12 @@ def one_case(spec, rng, n_models, n_rand):
         res["formulas"] = None
         res["dump_error"] = str(e)
     try:
-        res["soft"] = [[dump(a, tn), int(wt)] for a, wt in cap.soft]
+        res["soft"] = [[dump(a, tn), int(float(wt))] for a, wt in cap.soft]
     except DumpError as e:
         res["soft"] = None
         res["dump_error"] = str(e)
+    if res["formulas"] is None:
+        return res
     vs = all_vars(cap.assertions, tn)
     res["vars"] = [[tn[v.decl().name()], (2 if z3.is_bv(v) else 1 if z3.is_bool(v) else 0),
                     (v.size() if z3.is_bv(v) else 0)] for v in vs]
